@@ -74,6 +74,7 @@ MUTANTS = {
         ('open-inode-any-type', 'src/passthrough/sync_io.rs', "        if !is_safe_inode(data.mode) {\n            Err(ebadf())", "        if false {\n            Err(ebadf())"),
         ('restricted-open-follows-links', P, "        let flags = libc::O_NOFOLLOW | libc::O_CLOEXEC | flags;", "        let flags = libc::O_CLOEXEC | flags;"),
         ('safe-inode-includes-symlinks', 'src/passthrough/util.rs', "    matches!(mode & libc::S_IFMT, libc::S_IFREG | libc::S_IFDIR)", "    matches!(mode & libc::S_IFMT, libc::S_IFREG | libc::S_IFDIR | libc::S_IFLNK)"),
+        ('create-without-excl', P, "        match openat(dir, pathname, flags | libc::O_CREAT | libc::O_EXCL, mode) {", "        match openat(dir, pathname, flags | libc::O_CREAT, mode) {"),
         ('pt-lookup-no-slash-check', 'src/passthrough/sync_io.rs', "        if name.to_bytes_with_nul().contains(&SLASH_ASCII) {\n            return Err(einval());\n        }\n        self.do_lookup(parent, name)", "        self.do_lookup(parent, name)"),
     ],
     'C17': [
